@@ -59,7 +59,9 @@ def run(ctx):
     for k in sorted({(c["kind"], c["ty"]) for c in conf}):
         pool = [c for c in conf if (c["kind"], c["ty"]) == k and (thorough or c["n"] <= 11) and c["nc"] < 257]
         # one fresh and one already-used sampler of every kind / precision
-        pick_c += rnd.sample([c for c in pool if not c["pre"]], 3 if thorough else 1) + rnd.sample([c for c in pool if c["pre"]], 3 if thorough else 1)
+        fresh, used = [c for c in pool if not c["pre"]], [c for c in pool if c["pre"]]
+        k_ = 3 if thorough else 1
+        pick_c += rnd.sample(fresh, min(k_, len(fresh))) + rnd.sample(used, min(k_, len(used)))
     pick_c += [c for c in conf if c["nc"] >= 257]      # the large runs, every time
     pick_c += [c for c in conf if c["n"] == 48 and c["kind"] in ("MH", "Gibbs") and c["ty"] == "f64" and c["nc"] == 4 and c["nd"] == 0]
     slowf = [c for c in faults if c["slow"] and c["drop_at"] <= c["nc"] + c["nd"] - 3]   # >= 3 slow transitions after the drop: a periodic send fails
